@@ -218,6 +218,7 @@ func checkC03FillPair(c *Ctx) {
 	fieldT := p.Named(pkgSchema, "Field")
 	setF := p.Field(fieldT, "Set")
 	valueOfF := p.Field(fieldT, "ValueOf")
+	timeT := p.StdNamed("time", "Time")
 	isFieldFn := func(e ast.Expr, fv *types.Var) (*ast.CallExpr, bool) {
 		ce, ok := unparen(e).(*ast.CallExpr)
 		if !ok {
@@ -258,6 +259,10 @@ func checkC03FillPair(c *Ctx) {
 			}
 			nSet++
 			target, val := canon(info, ce.Args[1]), canon(info, ce.Args[2])
+			isTime := false
+			if tv, ok := info.Types[ce.Args[2]]; ok {
+				isTime = types.Identical(tv.Type, timeT)
+			}
 			blk := blockOf(x)
 			paired := false
 			if blk != nil {
@@ -266,7 +271,10 @@ func checkC03FillPair(c *Ctx) {
 					if !ok || len(as.Lhs) < 1 || !isCell(as.Lhs[0]) || len(as.Rhs) != 1 {
 						continue
 					}
-					if canon(info, as.Rhs[0]) == val {
+					// a time value goes through the field's setter, which converts it to the field's own
+					// representation (unix seconds / millis / nanos for integer fields): the cell must be
+					// re-read from the record, the raw time is not what the record holds
+					if canon(info, as.Rhs[0]) == val && !isTime {
 						paired = true
 					}
 					if vo, ok := isFieldFn(as.Rhs[0], valueOfF); ok && len(vo.Args) == 2 && canon(info, vo.Args[1]) == target {
@@ -274,7 +282,7 @@ func checkC03FillPair(c *Ctx) {
 					}
 				}
 			}
-			r.Check(paired, f.Name(), "record set => VALUES cell", x.Pos(), "the cell takes the same value (or re-reads the field of the same record)", "a default / auto-time value is set on the in-memory record but the VALUES cell of the row does not take it: the stored row differs from the record Create returns")
+			r.Check(paired, f.Name(), "record set => VALUES cell", x.Pos(), "the cell takes the same value (or re-reads the field of the same record)", "a default / auto-time value is set on the in-memory record but the VALUES cell of the row does not take what the record now holds (a time value has to be re-read through ValueOf, the setter converts it for integer time fields): the stored row differs from the record Create returns")
 		case *ast.AssignStmt:
 			if len(x.Lhs) != 1 || len(x.Rhs) != 1 || !isCell(x.Lhs[0]) || x.Tok != token.ASSIGN {
 				return true
